@@ -51,6 +51,12 @@ pub fn rss_cap_gib() -> f64 {
     std::env::var("VERIF_RSS_CAP_GIB").ok().and_then(|s| s.parse().ok()).unwrap_or(36.0)
 }
 
+/// ablation switch for measuring what a regime adds: `VERIF_DISABLE=aba,unobserved` turns the named
+/// regimes off (never set by the registered commands)
+pub fn disabled(name: &str) -> bool {
+    std::env::var("VERIF_DISABLE").map(|v| v.split(',').any(|x| x.trim() == name)).unwrap_or(false)
+}
+
 impl Ctx {
     pub fn over_time(&self) -> bool {
         self.start.elapsed() > self.wall_cap
